@@ -14,7 +14,7 @@ CONSTANTS MaxEntries, MaxOrdinal
 
 E(d, n, k, c) == [dir |-> d, name |-> n, kind |-> k, content |-> c]
 
-\* kind: "link" = <name>.md as a symbolic link, "note" = <name>.md, "txt" = <name>.txt, "noext" = <name>, "mdmd" = <name>.md.md
+\* kind: "link" = <name>.md as a symbolic link, "note" = <name>.md, "txt" = <name>.txt, "noext" = <name>, "mdmd" = <name>.md.md, "upper" = <name>.MD
 \* content: "messy" (formatting changes it), "clean" (already formatted), "empty", "big"
 Catalogue == {
     E("", "a", "note", "messy"),
@@ -30,6 +30,7 @@ Catalogue == {
     E("", "notes", "txt", "messy"),
     E("d", "README", "noext", "messy"),
     E("d", "a.md", "txt", "messy"),           \* a.md.txt: contains ".md" but is no note
+    E("", "UPPER", "upper", "messy"),         \* UPPER.MD: the extension in capitals is not the extension of a note
     E("", "lnk", "link", "big")               \* lnk.md is a symbolic link to a file outside the library
 }
 
@@ -39,7 +40,9 @@ Kinds == {"ENOSPC", "EDQUOT", "EIO", "EACCES", "KILL"}
 Faults ==
     {[type |-> "none", sys |-> "", ord |-> 0, kind |-> ""]}
     \cup {[type |-> "inject", sys |-> s, ord |-> o, kind |-> k] : s \in Syscalls, o \in 1..MaxOrdinal, k \in Kinds}
-    \cup {[type |-> "fsize", sys |-> "", ord |-> o, kind |-> ""] : o \in {0, 1, 7, 100}}
+    \* a file-size limit: the signal SIGXFSZ ends the process (kind ""), or - with the signal ignored, as under many
+    \* supervisors - every write past the limit returns EFBIG, again and again (a failure that does not go away on retry)
+    \cup {[type |-> "fsize", sys |-> "", ord |-> o, kind |-> k] : o \in {0, 1, 7, 100}, k \in {"", "EFBIG"}}
 
 IsNote(e) == e.kind \in {"note", "mdmd", "link"}
 
